@@ -171,6 +171,29 @@ def run_main_scenarios(spec, scratch):
                     res.append((nm, rc, p.returncode if p else 3, (p.stdout if p else so)[-400:]))
                 failed = any(r[1] != 0 or r[2] == 1 for r in res)
                 outs.append({'args': [sc], 'exit': 1 if failed else 0, 'stdout': '\n'.join(f'{r[0]}: inovesa exits {r[1]}; {r[3].strip()}' for r in res)})
+            elif sc == 'voltage':
+                # C17: an accelerating voltage that does not exceed the radiation loss per turn (no stable bucket: V_eff is not a
+                # positive number) must end in a message, not in a hang or a run on NaN parameters
+                text, failed = [], False
+                for nm, extra in (('far below the loss per turn', ['-V', '1e3']), ('zero', ['-V', '0']), ('ordinary', [])):
+                    out = os.path.join(work, 'volt.h5')
+                    for ext in ('', '.cfg'):
+                        try:
+                            os.remove(out + ext)
+                        except OSError:
+                            pass
+                    try:
+                        p = subprocess.run([exe, '--run_anyway', '1', '-s', '32', '-N', '10', '-T', '0.1', '-o', out] + extra, capture_output=True, text=True, timeout=30, env=env, cwd=work)
+                        rc, so, hung = p.returncode, p.stdout + p.stderr, False
+                    except subprocess.TimeoutExpired:
+                        rc, so, hung = None, '', True
+                    if nm == 'ordinary':
+                        ok = (rc == 0 and os.path.exists(out))
+                    else:
+                        ok = (not hung) and not os.path.exists(out) and 'oltage' in so
+                    failed |= not ok
+                    text.append(f'accelerating voltage {nm}: ' + ('does not end within 30 s' if hung else f'exit {rc}, results file written: {os.path.exists(out)}, last message: {so.strip().splitlines()[-1][-100:] if so.strip() else ""!r}'))
+                outs.append({'args': [sc], 'exit': 1 if failed else 0, 'stdout': '\n'.join(text)})
             elif sc == 'options':
                 # C20: precedence command line > config file > default, legacy names, compatibility-only names, refusals
                 def cfgval(fn, key):
